@@ -885,10 +885,33 @@ fn gen_f<F: Fld>(rng: &mut Rng, n: usize, emit: &mut dyn FnMut(String)) {
         exps.push(b + 1);
     }
     exps.push(if bits == 128 { u128::MAX } else { (1u128 << bits) - 1 });
+    // multiples of the group order p - 1 and of p that fit the exponent type, with their neighbours (an
+    // exponent "reduced" modulo p - 1 turns k(p-1) into 0: wrong for the base zero), and the order's half
+    let top: u128 = if bits == 128 { u128::MAX } else { (1u128 << bits) - 1 };
+    for k in 1u128..=5 {
+        for base in [m - 1, m, (m - 1) / 2] {
+            if let Some(x) = base.checked_mul(k) {
+                for d in [-1i128, 0, 1] {
+                    let y = if d < 0 { x.checked_sub(1) } else { x.checked_add(d as u128) };
+                    if let Some(y) = y {
+                        if y <= top {
+                            exps.push(y);
+                        }
+                    }
+                }
+            }
+        }
+    }
     exps.sort();
     exps.dedup();
     let exp_bases: Vec<u128> = {
+        // every representation of zero and one the raw-word boundary set knows, next to the small and random bases
         let mut v = vec![F::from_word(2).raw_word(), F::from_word(3).raw_word(), F::from_word(7).raw_word(), F::from_word(m - 1).raw_word()];
+        for r in braw.iter() {
+            if F::raw_ok(*r) && (raw_val::<F>(*r) == 0 || raw_val::<F>(*r) == 1) && !v.contains(r) {
+                v.push(*r);
+            }
+        }
         for _ in 0..3 {
             v.push(rnd_raw(rng));
         }
